@@ -372,6 +372,16 @@ func (p *Proxy) handleCONNECT(r responder.Responder, proxyReq *http.Request) err
 		if err := p.handleHTTP(tunnelResponder, req); err != nil {
 			slog.Error("Error processing HTTP request in CONNECT tunnel", "host", proxyReq.Host, "error", err)
 		}
+
+		// Whatever the handler left unread of this request's body (an answer from the store never looks at it)
+		// belongs to this exchange: read past it, or it is parsed as the start of the next request. Like
+		// net/http's own server, give up on the connection if there is too much of it.
+		const maxPostHandlerReadBytes = 256 << 10
+		if n, _ := io.CopyN(io.Discard, req.Body, maxPostHandlerReadBytes+1); n > maxPostHandlerReadBytes {
+			slog.Warn("Closing CONNECT tunnel: unread request body too large to skip", "host", proxyReq.Host)
+			break
+		}
+		req.Body.Close()
 	}
 
 	slog.Debug("Exiting CONNECT tunnel", "host", proxyReq.Host)
